@@ -199,6 +199,18 @@ def structure_to_schema(
     return fields_schema, definitions_schema
 
 
+def _default_to_json(field, key, default_val):
+    if isinstance(default_val, enum.Enum):
+        return default_val.name
+    try:
+        # pylint: disable=import-outside-toplevel
+        from typedpy.serialization.serialization import serialize_val
+
+        return deepcopy(serialize_val(field, key, default_val))
+    except Exception:  # pylint: disable=broad-except
+        return deepcopy(default_val)
+
+
 def _generate_schema_for_fields_internal(
     definitions_schema, field_by_name, mapper, properties, required
 ):
@@ -220,10 +232,10 @@ def _generate_schema_for_fields_internal(
             default_raw = getattr(field, "_default", None)
             if default_raw is not None:
                 default_val = default_raw() if callable(default_raw) else default_raw
-                if isinstance(default_val, enum.Enum):
-                    default_val = default_val.name
-                # the document must not contain the field's own (mutable) default object
-                sub_schema["default"] = deepcopy(default_val)
+                # the schema is a JSON document: the default is written in its JSON form (what the
+                # Serializer writes for that value: an enum member by name, a set / tuple as an
+                # array, a nested structure as an object), never the field's own (mutable) object
+                sub_schema["default"] = _default_to_json(field, key, default_val)
                 if mapped_key not in required:
                     required.append(mapped_key)
             properties[mapped_key] = sub_schema
